@@ -1,10 +1,338 @@
+"""Stiffener kernels and their Python call sites (R04.3, R12.5, R13.4)."""
+import ast
+import re
+from fractions import Fraction as Fr
+
+from . import panelk, pyflow, pyrules, pyxast, spec
+from .kernel import Factor, MatrixKernel
+from .poly import P
+from .pyflow import Sig, bind, dotted
+from .pyrules import module, norm
+from .report import repo_path, REPO, AnalysisError
+from .spec import S, C
+
+K1D = 'compmech/stiffener/models/bladestiff1d_clt_donnell_bardell.pyx'
+K2D = 'compmech/stiffener/models/bladestiff2d_clt_donnell_bardell.pyx'
+KT = 'compmech/stiffener/models/tstiff2d_clt_donnell_bardell.pyx'
+PY1D = 'compmech/stiffener/bladestiff1d.py'
+PY2D = 'compmech/stiffener/bladestiff2d.py'
+PYT = 'compmech/stiffener/tstiff2d.py'
+
+
+def kernel(chk, rel, fname):
+    u = pyxast.parse(repo_path(rel), REPO)
+    chk.need(u.func(fname) is not None, 'anchor vanished: %s in %s' % (fname, rel))
+    try:
+        return MatrixKernel(u, fname)
+    except KeyError as e:
+        raise AnalysisError(str(e))
+
+
+def point_of(k, direction, tag):
+    ats = set()
+    for a, info in k.w.atoms.reg.items():
+        if info[0] == 'P' and info[1] == direction and info[2].tag == tag:
+            ats.add(info[3])
+    return ats
+
+
+def check_point(chk, rule, k, rel, at, expr, what):
+    """at is an opaque local with definition expr (P) or a literal"""
+    fr = panelk.kern_frame(k)
+    if at in fr:
+        try:
+            got = panelk.expand_frame(fr, at)
+        except (KeyError, ValueError) as e:
+            got = None
+        ok = got is not None and got.close(expr)
+    else:
+        from .poly import nfs
+        ok = at == nfs(expr)
+        got = at
+    chk.ob(rule, ok, rel, k.fname, what, expected=repr(expr), got=repr(got), sample='%s: %s = %r' % (k.fname, at, expr))
+    return ok
+
+
+# --------------------------------------------------------------------------
+# R04.3 flange mass of the 1-D blade stiffener
+
+
 def r04_3(chk):
-    pass
+    k = kernel(chk, K1D, 'fkMf')
+    panelk.issue_obligations(chk, 'R04.3', k, K1D)
+    ats = point_of(k, 'y', '')
+    ok = len(ats) == 1
+    chk.ob('R04.3', ok, K1D, 'fkMf', 'one evaluation line y = ys', got=sorted(ats))
+    if not ok:
+        return
+    at = ats.pop()
+    check_point(chk, 'R04.3', k, K1D, at, C(2) * S('ys') / S('b') - C(1), 'flange line eta = 2 ys/b - 1')
+    A = k.w.atoms
+    a, b, bf, hf, mu, h, hb, df = (S(x) for x in ('a', 'b', 'bf', 'hf', 'mu', 'h', 'hb', 'df'))
+    dx, dy = C(2) / a, C(2) / b
+    rows = [[(C(1), 'u', 0, 0)], [(C(1), 'v', 0, 0)], [(C(1), 'w', 0, 0)], [(dx, 'w', 1, 0)], [(dy, 'w', 0, 1)]]
+    got = {pq: k.block(pq) for pq in k.blocks}
+
+    def build(sign, dsym, R):
+        """Hessian of 1/2 mu hf int_x int_z [(u - z w,x)^2 + (v - z w,y)^2 + w^2], z over the flange height:
+        int dz = bf, int z dz = sign*bf*dsym, int z^2 dz = bf*R ; evaluated on the line y = ys"""
+        z0, z1, z2 = bf, bf * dsym * C(sign), bf * R
+        tab = {(0, 0): z0, (1, 1): z0, (2, 2): z0, (0, 3): -z1, (3, 0): -z1, (1, 4): -z1, (4, 1): -z1, (3, 3): z2, (4, 4): z2}
+        out = {}
+        for (p, q), m in tab.items():
+            for tA in rows[p]:
+                for tB in rows[q]:
+                    cA, fA, dxA, dyA = tA
+                    cB, fB, dxB, dyB = tB
+                    v = mu * hf * m * cA * cB * (a / C(2))
+                    v = v * S(A.integral('x', 'full', Factor('A', '', fA, dxA), Factor('B', '', fB, dxB)))
+                    v = v * S(A.point('y', Factor('A', '', fA, dyA), at)) * S(A.point('y', Factor('B', '', fB, dyB), at))
+                    key = (spec.DOF3[fA], spec.DOF3[fB])
+                    out[key] = out.get(key, P()) + v
+        return out
+    # second moment about the skin mid-surface of a flange that starts at the far side of the base: z in [h/2+hb, h/2+hb+bf]
+    z0 = h / C(2) + hb
+    R_expl = z0 * z0 + z0 * bf + bf * bf / C(3)
+    # centroid distance used by the kernel for the coupling terms: df
+    match = None
+    for sgn in (+1, -1):
+        exp = build(sgn, df, R_expl)
+        if all(got.get(pq, P()).close(exp.get(pq, P())) for pq in set(got) | set(exp)):
+            match = sgn
+    exp = build(-1, df, R_expl)       # the kernel's sign convention: u + df*w,x
+    for pq in sorted(set(got) | set(exp)):
+        g, x = got.get(pq, P()), exp.get(pq, P())
+        ok = g.close(x)
+        chk.ob('R04.3', ok, K1D, 'fkMf', 'block(%d,%d)' % pq, line=k.blocks[pq][0].line if pq in k.blocks else 0,
+               expected='kinetic-energy Hessian of a flange bf x hf whose centroid is df from the skin reference: %r' % x, got=repr(g),
+               detail='; '.join(g.diffterms(x, 2)), sample='fkMf block %s == %r' % (pq, x) if pq == (0, 0) else None)
+    # consistency of the triple (df, hb, h) at the Python call site: df must be the centroid distance bf/2 + hb + h/2 of the SAME hb, h
+    m = module(PY1D)
+    fn = m.method('BladeStiff1D', 'calc_kM')
+    calls = pyrules.attr_calls(fn, 'fkMf')
+    chk.need(len(calls) == 1, 'BladeStiff1D.calc_kM: fkMf call vanished')
+    u = pyxast.parse(repo_path(K1D), REPO)
+    mp, probs = bind(calls[0], Sig(u.func('fkMf')))
+    got_b = {p: norm(v) for p, v in mp.items()}
+    chk.ob('R04.3', not probs, PY1D, 'BladeStiff1D.calc_kM', 'fkMf call binds', detail='; '.join(probs))
+    reb = m.method('BladeStiff1D', '_rebuild')
+    dbf = [norm(n.value) for n in ast.walk(reb) if isinstance(n, ast.Assign) and norm(n.targets[0]) == 'self.dbf']
+    hb_attr_writes = [n.lineno for meth in m.classes['BladeStiff1D'].values() for n in ast.walk(meth)
+                      if isinstance(n, ast.Assign) and norm(n.targets[0]) == 'self.hb' and meth.name != '__init__']
+    ok = got_b.get('df') == 'self.dbf' and dbf == ['self.bf/2.0+hb+h/2.0'] and (got_b.get('hb') != 'self.hb' or bool(hb_attr_writes))
+    chk.ob('R04.3', ok, PY1D, 'BladeStiff1D.calc_kM', 'consistent (df, hb, h) triple', line=calls[0].lineno,
+           expected='df = bf/2 + hb + h/2 computed from the same hb and h that are passed to the kernel',
+           got='df <- %s = %s ; hb <- %s (assigned outside __init__ at lines %s)' % (got_b.get('df'), dbf, got_b.get('hb'), hb_attr_writes),
+           detail='' if ok else '_rebuild computes dbf with the real base thickness (local hb) but never stores it: the kernel receives self.hb, which stays at its initial 0, so the rotary inertia ignores the base thickness that the coupling terms include')
+    flag_binding(chk, 'R04.3', PY1D, 'BladeStiff1D', 'calc_kM', K1D, 'fkMf', {'': 'bay'}, {'ys': 'self.ys', 'mu': 'self.mu', 'hf': 'self.hf', 'a': 'bay.a', 'b': 'bay.b', 'bf': 'self.bf', 'm': 'bay.m', 'n': 'bay.n', 'size': 'size', 'row0': 'row0', 'col0': 'col0'})
+
+
+# --------------------------------------------------------------------------
+# call binding of the long positional argument lists
+
+
+def flag_binding(chk, rule, pyrel, cls, meth, krel, kname, tagobj, others, recv=None):
+    """flag parameters <f><tag> must receive <object of tag>.<f>; other parameters as listed"""
+    m = module(pyrel)
+    fn = m.method(cls, meth)
+    calls = pyrules.attr_calls(fn, kname)
+    chk.need(len(calls) >= 1, '%s.%s: %s call vanished' % (cls, meth, kname))
+    u = pyxast.parse(repo_path(krel), REPO)
+    kfn = u.func(kname)
+    chk.need(kfn is not None, 'kernel %s vanished' % kname)
+    defs = pyrules.local_defs(fn)
+    for c in calls:
+        mp, probs = bind(c, Sig(kfn))
+        bad = {}
+        for p, a in mp.items():
+            t = norm(a)
+            mm = re.match(r'^([uvw][12][tr][xy])([a-z]?)$', p)
+            if mm:
+                obj = tagobj.get(mm.group(2))
+                want = '%s.%s' % (obj, mm.group(1))
+                if t != want:
+                    bad[p] = '%s (expected %s)' % (t, want)
+            elif p in others:
+                wants = others[p] if isinstance(others[p], (set, tuple, list)) else {others[p]}
+                if pyrules.resolve(fn, a, defs) not in wants and t not in wants:
+                    bad[p] = '%s (expected %s)' % (t, sorted(wants))
+        chk.ob(rule, not probs and not bad, pyrel, '%s.%s' % (cls, meth), '%s argument list' % kname, line=c.lineno,
+               expected='every edge flag and size of the kernel receives the attribute of the same name of the right component', got=bad, detail='; '.join(probs),
+               sample='%s.%s -> %s: %d arguments bound by name' % (cls, meth, kname, len(mp)))
+
+
+def r13_bindings(chk, rule='R13.4'):
+    sz = {'size': 'size'}
+    # BladeStiff2D.calc_k0
+    flag_binding(chk, rule, PY2D, 'BladeStiff2D', 'calc_k0', K2D, 'fkCss', {'': 'bay'},
+                 dict(sz, kt='ktbf', kr='krbf', ys='self.ys', a={'a', 'bay.a'}, b={'b', 'bay.b'}, m={'m', 'bay.m'}, n={'n', 'bay.n'}, row0='0', col0='0'))
+    flag_binding(chk, rule, PY2D, 'BladeStiff2D', 'calc_k0', K2D, 'fkCsf', {'': 'bay', 'f': 'self.flange'},
+                 dict(sz, kt='ktbf', kr='krbf', ys='self.ys', a={'a', 'bay.a'}, b={'b', 'bay.b'}, bf={'bf', 'self.flange.b'}, m={'m', 'bay.m'}, n={'n', 'bay.n'},
+                      m1='self.flange.m', n1='self.flange.n', row0='0', col0='col0'))
+    flag_binding(chk, rule, PY2D, 'BladeStiff2D', 'calc_k0', K2D, 'fkCff', {'f': 'self.flange', '': 'self.flange'},
+                 dict(sz, kt='ktbf', kr='krbf', a={'a', 'bay.a'}, bf={'bf', 'self.flange.b'}, m1='self.flange.m', n1='self.flange.n', row0='row0', col0='col0'))
+    # TStiff2D.calc_k0
+    flag_binding(chk, rule, PYT, 'TStiff2D', 'calc_k0', KT, 'fkCppy1y2', {'': 'bay'},
+                 dict(sz, y1={'y1', 'self.ys-self.base.b/2.0'}, y2={'y2', 'self.ys+self.base.b/2.0'}, kt={'ktpb', 'min(10000000.0,ktpb)'}, a='bay.a', b='bay.b', dpb='self.dpb', m='bay.m', n='bay.n', row0='0', col0='0'))
+    flag_binding(chk, rule, PYT, 'TStiff2D', 'calc_k0', KT, 'fkCpby1y2', {'': 'bay', 'b': 'self.base'},
+                 dict(sz, y1={'y1', 'self.ys-self.base.b/2.0'}, y2={'y2', 'self.ys+self.base.b/2.0'}, kt={'ktpb', 'min(10000000.0,ktpb)'}, a='bay.a', b='bay.b', dpb='self.dpb', m='bay.m', n='bay.n',
+                      m1='self.base.m', n1='self.base.n', row0='0', col0='col0'))
+    flag_binding(chk, rule, PYT, 'TStiff2D', 'calc_k0', KT, 'fkCbbpby1y2', {'b': 'self.base', '': 'self.base'},
+                 dict(sz, y1={'y1', 'self.ys-self.base.b/2.0'}, y2={'y2', 'self.ys+self.base.b/2.0'}, kt={'ktpb', 'min(10000000.0,ktpb)'}, a='bay.a', b='bay.b', m1='self.base.m', n1='self.base.n', row0='row0', col0='col0'))
+    # BladeStiff1D
+    flag_binding(chk, rule, PY1D, 'BladeStiff1D', 'calc_k0', K1D, 'fk0f', {'': 'bay'},
+                 dict(sz, ys='self.ys', a='bay.a', b='bay.b', bf='self.bf', df='self.dbf', E1='self.E1', F1='self.F1', S1='self.S1', Jxx='self.Jxx', m='bay.m', n='bay.n', row0='row0', col0='col0'))
+    flag_binding(chk, rule, PY1D, 'BladeStiff1D', 'calc_kG0', K1D, 'fkG0f', {'': 'bay'},
+                 dict(sz, ys='self.ys', Fx={'Fx', 'self.Fx|0.0'}, a='bay.a', b='bay.b', bf='self.bf', m='bay.m', n='bay.n', row0='row0', col0='col0'))
+
+
+# --------------------------------------------------------------------------
+# R12.5 connection kernels inside the 2-D stiffeners
 
 
 def r12_5(chk):
-    pass
+    from . import c12
+    # ---- blade stiffener: skin/flange connection == base-flange connection along y = const
+    for fname, blk, (pa, pb) in (('fkCss', '11', (1, 1)), ('fkCsf', '12', (1, 2)), ('fkCff', '22', (2, 2))):
+        k = kernel(chk, K2D, fname)
+        panelk.issue_obligations(chk, 'R12.5', k, K2D)
+        tags = {1: '', 2: 'f'} if fname != 'fkCff' else {1: '', 2: sorted({i[2].tag for i in k.w.atoms.reg.values() if i[0] == 'P'} or {''})[0]}
+        pts = {}
+        okp = True
+        for p in {pa, pb}:
+            ats = point_of(k, 'y', tags[p])
+            if len(ats) != 1:
+                okp = False
+                chk.ob('R12.5', False, K2D, fname, 'interface line of component %d' % p, got=sorted(ats))
+                continue
+            at = ats.pop()
+            pts[('y', str(p))] = at
+            if p == 1:
+                check_point(chk, 'R12.5', k, K2D, at, C(2) * S('ys') / S('b') - C(1), 'skin line eta = 2 ys/b - 1')
+            else:
+                check_point(chk, 'R12.5', k, K2D, at, C(-1), 'flange root eta_f = -1')
+        if not okp:
+            continue
+        names = {'kt': k.w.params[0], 'kr': k.w.params[1]}
+        exp = c12.conn_spec('BFycte', pa, pb, k, pts, names, tagmap=tags, geom={'a1': S('a'), 'a2': S('a'), 'b1': S('b'), 'b2': S('bf')})
+        got = {pq: k.block(pq) for pq in k.blocks}
+        panelk.compare_blocks(chk, 'R12.5', k, K2D, got, exp, 'Hessian of the skin-flange penalty energy (base-flange jump table)')
+        guards = panelk.guards_of(k)
+        want = ('skip-if row > col',) if blk in ('11', '22') else ()
+        chk.ob('R12.5', bool(guards) and all(g == want for g in guards), K2D, fname, 'fill discipline', got=sorted({x for g in guards for x in g}))
+    # ---- T stiffener: skin/base connection over the strip y1..y2
+    for fname, (pa, pb) in (('fkCppy1y2', (1, 1)), ('fkCpby1y2', (1, 2)), ('fkCbbpby1y2', (2, 2))):
+        k = kernel(chk, KT, fname)
+        panelk.issue_obligations(chk, 'R12.5', k, KT)
+        exp = tstiff_spec(chk, k, pa, pb)
+        if exp is None:
+            continue
+        got = {pq: k.block(pq) for pq in k.blocks}
+        panelk.compare_blocks(chk, 'R12.5', k, KT, got, exp, 'Hessian of kt/2 int_strip |u_skin(+dpb w,x) - u_base|^2')
+        guards = panelk.guards_of(k)
+        want = ('skip-if row > col',) if pa == pb else ()
+        chk.ob('R12.5', bool(guards) and all(g == want for g in guards), KT, fname, 'fill discipline', got=sorted({x for g in guards for x in g}))
+
+
+def tstiff_spec(chk, k, pa, pb):
+    A = k.w.atoms
+    fr = panelk.kern_frame(k)
+    fname = k.fname
+    a, b, kt = S('a'), S('b'), S('kt')
+    # limits / mapping constants used by the kernel
+    lims = {info[4] for info in A.reg.values() if info[0] == 'I' and info[4]}
+    y1, y2 = k.w.params[0], k.w.params[1]
+    e1 = C(2) * S(y1) / b - C(1)
+    e2 = C(2) * S(y2) / b - C(1)
+    sub_lim = map_lim = None
+    c1sym = None
+    for lim in lims:
+        try:
+            d0, d1 = panelk.expand_frame(fr, lim[0]), panelk.expand_frame(fr, lim[1])
+        except (KeyError, ValueError):
+            continue
+        if d0.close(e1) and d1.close(e2):
+            sub_lim = lim
+        if d0.close((e1 + e2) * C(Fr(1, 2))) and d1.close((e2 - e1) * C(Fr(1, 2))):
+            map_lim = lim
+            c1sym = S(lim[1])
+    # c1 may be used without a mapped integral (base-base block)
+    if c1sym is None:
+        for nm in fr:
+            try:
+                if panelk.expand_frame(fr, nm).close((e2 - e1) * C(Fr(1, 2))):
+                    c1sym = S(nm)
+            except (KeyError, ValueError):
+                pass
+    need_sub = (pa, pb) == (1, 1)
+    need_map = (pa, pb) == (1, 2)
+    ok = (not need_sub or sub_lim) and (not need_map or map_lim) and (pa == 1 and pb == 1 or c1sym is not None)
+    chk.ob('R12.5', bool(ok), KT, fname, 'strip limits and mapping constants', expected='eta_i = 2 y_i/b - 1; c0 = (eta1+eta2)/2, c1 = (eta2-eta1)/2',
+           got={str(l): None for l in lims}, sample='%s: limits %s' % (fname, sorted(map(str, lims))))
+    if not ok:
+        return None
+    dpb = S('dpb')
+    dx, dy = C(2) / a, C(2) / b
+    tag = {1: '', 2: 'b'}
+    if (pa, pb) == (2, 2):
+        # the base-base kernel receives only base flags; its parameters may carry either suffix
+        t2 = sorted({f.tag for info in A.reg.values() if info[0] == 'I' for f in info[3]})
+        tag = {1: '', 2: t2[0] if t2 else ''}
+    jumps = [[(1, C(1), 1, 'u', 0, 0), (1, dpb * dx, 1, 'w', 1, 0), (-1, C(1), 2, 'u', 0, 0)],
+             [(1, C(1), 1, 'v', 0, 0), (1, dpb * dy, 1, 'w', 0, 1), (-1, C(1), 2, 'v', 0, 0)],
+             [(1, C(1), 1, 'w', 0, 0), (-1, C(1), 2, 'w', 0, 0)]]
+    J = a * b / C(4)
+    out = {}
+    for terms in jumps:
+        for (s1, c1_, p1, f1, dx1, dy1) in terms:
+            if p1 != pa:
+                continue
+            for (s2, c2_, p2, f2, dx2, dy2) in terms:
+                if p2 != pb:
+                    continue
+                FA = lambda d: Factor('A', tag[p1], f1, d)
+                FB = lambda d: Factor('B', tag[p2], f2, d)
+                ix = S(A.integral('x', 'full', FA(dx1), FB(dx2)))
+                if p1 == 1 and p2 == 1:
+                    iy = S(A.integral('y', 'sub', FA(dy1), FB(dy2), sub_lim))
+                elif p1 == 1 and p2 == 2:
+                    # int_strip phi_skin(eta) phi_base(eta') d eta = c1 int phi_base(eta') phi_skin(c0 + c1 eta') d eta'
+                    iy = c1sym * S(A.integral('y', 'mapped', FB(dy2), FA(dy1), map_lim))
+                else:
+                    iy = c1sym * S(A.integral('y', 'full', FA(dy1), FB(dy2)))
+                key = (spec.DOF3[f1], spec.DOF3[f2])
+                out[key] = out.get(key, P()) + kt * J * C(s1 * s2) * c1_ * c2_ * ix * iy
+    return {k_: v for k_, v in out.items() if v.t}
+
+
+# --------------------------------------------------------------------------
+# R13.4 remaining stiffener kernels as Gram forms
 
 
 def r13_4(chk):
-    pass
+    r13_bindings(chk, 'R13.4')
+    # fkG0f: Hessian of Fx int w,x^2 on the line y = ys
+    k = kernel(chk, K1D, 'fkG0f')
+    panelk.issue_obligations(chk, 'R13.4', k, K1D)
+    ats = point_of(k, 'y', '')
+    if len(ats) == 1:
+        at = ats.pop()
+        check_point(chk, 'R13.4', k, K1D, at, C(2) * S('ys') / S('b') - C(1), 'flange line eta = 2 ys/b - 1')
+        A = k.w.atoms
+        a = S('a')
+        Fx = S(k.w.params[1])
+        v = Fx * (C(2) / a) ** 2 * (a / C(2)) * S(A.integral('x', 'full', Factor('A', '', 'w', 1), Factor('B', '', 'w', 1))) * \
+            S(A.point('y', Factor('A', '', 'w', 0), at)) * S(A.point('y', Factor('B', '', 'w', 0), at))
+        got = {pq: k.block(pq) for pq in k.blocks}
+        panelk.compare_blocks(chk, 'R13.4', k, K1D, got, {(2, 2): v}, 'Hessian of Fx int (w,x)^2 dx on y = ys')
+    else:
+        chk.ob('R13.4', False, K1D, 'fkG0f', 'one evaluation line', got=sorted(ats))
+    # fk0f: role-swap symmetry (needed for the triangular fill)
+    k = kernel(chk, K1D, 'fk0f')
+    panelk.issue_obligations(chk, 'R13.4', k, K1D)
+    got = {pq: k.block(pq) for pq in k.blocks}
+    for pq in sorted(got):
+        sw = panelk.swap_roles(got.get((pq[1], pq[0]), P()), k.w.atoms)
+        chk.ob('R13.4', got[pq].close(sw), K1D, 'fk0f', 'role-swap (%d,%d)' % pq, expected='E_PQ(A,B) == E_QP(B,A)',
+               sample='fk0f block %s symmetric under the row/column swap' % (pq,))
+    chk.note('fk0f: positive semi-definiteness depends on laminate values (S1 coupling), not decided')
